@@ -52,6 +52,15 @@ class LChan:
         self.closed = False
 
 
+class ModuleObj:
+    __slots__ = ("path", "exports", "env")
+
+    def __init__(self, path):
+        self.path = path
+        self.exports = set()
+        self.env = [{}]
+
+
 class Cell:
     __slots__ = ("v",)
 
@@ -293,6 +302,12 @@ class Interp:
         from . import layref_lib
         layref_lib.install_globals(self)
 
+        def _exit(I, r, a):
+            if len(a) > 1 or (a and not isinstance(a[0], float)):
+                I.throw("RuntimeError")
+            raise Exit(int(a[0]) if a else 0)
+        self.globals["exit"] = Cell(Native("exit", _exit, None))
+
     # ---- errors
     def make_error(self, cls_name, message, inner=None):
         inst = Instance(self.classes[cls_name])
@@ -439,6 +454,8 @@ class Interp:
         t = s[0]
         if t == "let":
             v = self.eval(s[2], env) if s[2] is not None else None
+            if isinstance(v, Closure) and v.kind == "lambda" and v.name == "lambda" and s[2][0] == "lambda":
+                v.name = s[1]  # a lambda bound by let is reported under the variable's name
             env[-1][s[1]] = Cell(v)
         elif t == "expr":
             self.eval(s[1], env)
@@ -763,6 +780,10 @@ class Interp:
                     return r.cls.is_sub(a[0])
                 return Bound(o, Native("isA?", isa, None))
             self.throw("PropertyError")
+        if isinstance(o, ModuleObj):
+            if name in o.exports:
+                return o.env[0][name].v
+            self.throw("PropertyError")
         if isinstance(o, LClass):
             c = o
             while c is not None:
@@ -853,13 +874,47 @@ class Interp:
 
     # ---- modules (C17)
     def do_import(self, s, env):
-        raise Unsupported("import")
+        """['import', text, {'path': [...], 'alias': name|None, 'symbols': [(name, alias|None)]|None}]; user modules only ('self.')"""
+        spec = s[2]
+        path = spec["path"]
+        if path[0] != "self":
+            raise Unsupported("import of a std module")
+        mod = None
+        # every prefix of the path is a module file of its own (self.dir.file needs dir.lay and dir/file.lay)
+        for k in range(1, len(path)):
+            fpath = "/v/" + "/".join(path[1:k + 1]) + ".lay"
+            if fpath not in self.files:
+                self.throw("ImportError")
+            mod = self.load_module(fpath)
+        if spec["symbols"] is None:
+            env[-1][spec["alias"] or path[-1]] = Cell(mod)
+        else:
+            for name, alias in spec["symbols"]:
+                if name not in mod.exports:
+                    self.throw("ImportError")
+                env[-1][alias or name] = Cell(mod.env[0][name].v)
+
+    def load_module(self, fpath):
+        if fpath in self.modules:
+            return self.modules[fpath]
+        mod = ModuleObj(fpath)
+        self.modules[fpath] = mod   # registered before its body runs
+        saved = getattr(self, "cur_exports", None)
+        self.cur_exports = mod.exports
+        self.frames.append(["script", None, fpath])
+        try:
+            self.exec_block(self.files[fpath], mod.env)
+        finally:
+            self.frames.pop()
+            self.cur_exports = saved
+        return mod
 
     # ---- program
     def run(self, stmts):
         """returns (class, stdout, error_class_name or None, error instance)"""
         env = [{}]
         self.frames = [["script", None, self.path]]
+        self.cur_exports = set()
         try:
             self.exec_block(stmts, env)
             return "ok", "".join(self.out), None, None
@@ -894,11 +949,14 @@ class Printer:
     """layout: 'min' minimal parentheses (own precedence table), 'full' every sub expression parenthesised,
     'redundant' minimal + one redundant pair around every operand, 'lines' one token per line (expressions only), 'comments'"""
 
-    def __init__(self, layout="min"):
+    def __init__(self, layout="min", multiline_lambdas=False, marks=None):
         self.layout = layout
         self.lines = {}
         self.out = []
         self.line = 1
+        self.multiline_lambdas = multiline_lambdas
+        self.ends = {}
+        self.marks = marks if marks is not None else []   # node ids, referenced by \x01<index>\x02 markers in the text
 
     # expression -> (text, precedence level)
     def ex(self, e):
@@ -944,6 +1002,10 @@ class Printer:
                 if e[2][0] == "map":
                     body = "(" + body + ")"
                 return ps + " " + body, 1
+            if self.multiline_lambdas:
+                p = Printer(self.layout if self.layout != "lines" else "min", True, self.marks)
+                p.block(e[2], 1)
+                return ps + " {\n" + "".join(p.out) + "}", 1
             return ps + " { " + self.inline_block(e[2]) + " }", 1
         if t == "list":
             return "[" + ", ".join(self.sub(x, 1) for x in e[1]) + "]", 11
@@ -1008,14 +1070,16 @@ class Printer:
     def inline_block(self, stmts):
         p = Printer(self.layout if self.layout not in ("lines", "comments") else "min")
         p.block(stmts, 0, inline=True)
-        return " ".join(x.strip() for x in "".join(p.out).split("\n") if x.strip())
+        import re as _re
+        return " ".join(x.strip() for x in _re.sub("[\x01\x03]\\d+[\x02\x04]", "", "".join(p.out)).split("\n") if x.strip())
 
     # statements
     def emit(self, text, node=None):
         if node is not None:
-            self.lines[id(node)] = self.line
+            self.marks.append(id(node))
+            k = len(self.marks) - 1
+            text = "\x01%d\x02" % k + text + "\x03%d\x04" % k
         self.out.append(text + "\n")
-        self.line += text.count("\n") + 1
 
     def block(self, stmts, ind, inline=False):
         for s in stmts:
@@ -1076,7 +1140,8 @@ class Printer:
             n = len(self.out)
             self.stmt(s[1], ind)
             self.out[n] = pad + "export " + self.out[n].lstrip()
-            self.lines[id(s)] = self.lines.get(id(s[1]))
+            self.marks.append(id(s))
+            self.out[n] = "\x01%d\x02" % (len(self.marks) - 1) + self.out[n]
         elif t == "import":
             self.emit(pad + s[1] + ";", s)
         elif t == "raw":
@@ -1086,7 +1151,29 @@ class Printer:
 
     def program(self, stmts):
         self.block(stmts, 0)
-        return "".join(self.out)
+        raw = "".join(self.out)
+        # resolve the statement markers into line numbers and strip them
+        out = []
+        line = 1
+        i = 0
+        n = len(raw)
+        while i < n:
+            ch = raw[i]
+            if ch == "\x01":
+                j = raw.index("\x02", i)
+                self.lines.setdefault(self.marks[int(raw[i + 1:j])], line)
+                i = j + 1
+                continue
+            if ch == "\x03":
+                j = raw.index("\x04", i)
+                self.ends.setdefault(self.marks[int(raw[i + 1:j])], line)
+                i = j + 1
+                continue
+            if ch == "\n":
+                line += 1
+            out.append(ch)
+            i += 1
+        return "".join(out)
 
 
 def tokens_per_line(s):
@@ -1117,7 +1204,19 @@ def tokens_per_line(s):
     return "\n".join(out)
 
 
-def render(stmts, layout="min"):
-    p = Printer(layout)
+def render(stmts, layout="min", multiline_lambdas=False):
+    p = Printer(layout, multiline_lambdas)
     src = p.program(stmts)
     return src, p.lines
+
+
+def render_spans(stmts, layout="min", multiline_lambdas=True):
+    """-> (source, start line per statement id, {start line: end line} for statements spanning several lines)"""
+    p = Printer(layout, multiline_lambdas)
+    src = p.program(stmts)
+    spans = {}
+    for k, st in p.lines.items():
+        en = p.ends.get(k, st)
+        if en > spans.get(st, st):
+            spans[st] = en
+    return src, p.lines, spans
